@@ -482,6 +482,7 @@ class _Session:
         self.sequences = None
         self.stub_child = "none"
         self.force_finish = False     # watchdog: unblock a join() of the stub that would wait forever
+        self._spell_i = nseq + len(tool) + len(wrapper)      # rotates the spelling of scalar / array arguments (deterministic)
 
     # -- construction
     def alphabet_size(self):
@@ -661,6 +662,40 @@ class _Session:
             rows.append(s)
         return rows
 
+    def spell(self, value):
+        """The same number in another spelling: Python int/float and NumPy scalars of several widths."""
+        import numpy as np
+        self._spell_i += 1
+        if float(value) == int(value):
+            forms = [float(value), int(value), np.float64(value), np.int64(value), np.float32(value), np.int16(value), np.int8(value)]
+            if value >= 0:
+                forms += [np.uint8(value), np.uint32(value)]
+        else:
+            forms = [float(value), np.float64(value), np.float32(value)]
+        return forms[self._spell_i % len(forms)]
+
+    def spell_array(self, a):
+        """The same matrix in another memory layout / dtype: C- and F-ordered, float32/int64, read-only, strided view."""
+        import numpy as np
+        self._spell_i += 1
+        a = np.asarray(a, dtype=float)
+        k = self._spell_i % 6
+        if k == 0:
+            return np.ascontiguousarray(a)
+        if k == 1:
+            return np.asfortranarray(a)
+        if k == 2:
+            return a.astype(np.float32)
+        if k == 3:
+            return a.astype(np.int64)
+        if k == 4:
+            b = a.copy()
+            b.setflags(write=False)
+            return b
+        big = np.zeros((2 * a.shape[0], 2 * a.shape[1]))
+        big[::2, ::2] = a
+        return big[::2, ::2]
+
     def snapshot(self):
         """Everything the wrapper stores (for "a rejected call changes nothing"): attribute name -> comparable value."""
         def safe(v, depth=0):
@@ -708,18 +743,18 @@ class _Session:
             return app.set_exec_dir(self.execdir)
         if name == "set_distance_matrix":
             import numpy as np
-            return app.set_distance_matrix(np.ones((self.nseq, self.nseq)) - np.eye(self.nseq))
+            return app.set_distance_matrix(self.spell_array(np.ones((self.nseq, self.nseq)) - np.eye(self.nseq)))
         if name == "set_guide_tree":
             from biotite.sequence.phylo import Tree
             n = self.nseq
             nw = "(" * (n - 1) + "0:1.0" + "".join(f",{i}:1.0):1.0" for i in range(1, n - 1)) + f",{n - 1}:1.0);"
             return app.set_guide_tree(Tree.from_newick(nw))
         if name == "set_gap_penalty":
-            return app.set_gap_penalty(-10.0)
+            return app.set_gap_penalty(self.spell(-10.0))
         if name == "set_iterations":
-            return app.set_iterations(1, 1)
+            return app.set_iterations(self.spell(1), self.spell(1))
         if name == "set_thread_number":
-            return app.set_thread_number(1)
+            return app.set_thread_number(self.spell(1))
         return getattr(app, name)()
 
     def _join_watched(self, timeout, limit):
@@ -788,6 +823,9 @@ class _Session:
                         t.start()
                     return self._join_watched(None, 10.0)
                 timeout = {"t": TIMEOUT, "5": 5.0, "0": 0, "0.0": 0.0}[w[1]]
+                if self._spell_i % 3 == 0:            # every third join passes the same timeout as a NumPy scalar
+                    timeout = self.spell(timeout)
+                self._spell_i += 1
                 return self._join_watched(timeout, 12.0 if w[1] == "5" else 2.0)
             if w[0] == "cancel":
                 app.cancel()
@@ -804,8 +842,8 @@ class _Session:
                 os.chdir(self.caller_cwd)
                 return "ok"
             if w[0] == "setgap":
-                vals = [float(x) for x in w[1:]]
-                app.set_gap_penalty(vals[0] if len(vals) == 1 else tuple(vals))
+                vals = [self.spell(float(x)) for x in w[1:]]
+                app.set_gap_penalty(vals[0] if len(vals) == 1 else (tuple(vals) if self._spell_i % 2 else list(vals)))
                 return "ok"
             if w[0] == "callbad":
                 self.call_bad(w[1])
@@ -1214,6 +1252,442 @@ def _oracle_mapseq(case, trace):
                 v.append((key, f"{t['op']} -> {res}, expected {exp}"))
     return v
 
+# ---------------------------------------------------------------- oracle-only streams: the less-used entry points
+class _Sandbox:
+    """Private temp dir / log / PATH / cwd for an oracle-only case on the real classes (no gate: tools run through)."""
+
+    def __enter__(self):
+        self.root = tempfile.mkdtemp(prefix="C20-")
+        self.tmp = os.path.join(self.root, "tmp")
+        self.other = os.path.join(self.root, "other")
+        os.mkdir(self.tmp)
+        os.mkdir(self.other)
+        self.log = os.path.join(self.root, "log")
+        self.cwd0 = os.getcwd()
+        self.old_tmp = tempfile.tempdir
+        self.old_env = {k: os.environ.get(k) for k in ("C20_GATE", "C20_LOG", "C20_VERSION", "PATH")}
+        tempfile.tempdir = self.tmp
+        os.environ.pop("C20_GATE", None)
+        os.environ["C20_LOG"] = self.log
+        os.environ["C20_VERSION"] = "3.8.31"
+        return self
+
+    def events(self):
+        try:
+            return [json.loads(x) for x in open(self.log)]
+        except OSError:
+            return []
+
+    def leftovers(self):
+        bad = []
+        n = len(os.listdir(self.tmp))
+        if n:
+            bad.append(f"{n} temp file(s)")
+        if os.getcwd() != self.cwd0:
+            bad.append("cwd changed")
+        for e in self.events():
+            if e.get("event") == "started" and _proc_state(e["pid"]) == "alive":
+                time.sleep(0.3)
+                if _proc_state(e["pid"]) == "alive":
+                    bad.append("child alive")
+                    try:
+                        os.kill(e["pid"], 9)
+                    except OSError:
+                        pass
+        return bad
+
+    def __exit__(self, *exc):
+        try:
+            os.chdir(self.cwd0)
+        except OSError:
+            pass
+        tempfile.tempdir = self.old_tmp
+        for k, v in self.old_env.items():
+            if v is None:
+                os.environ.pop(k, None)
+            else:
+                os.environ[k] = v
+        shutil.rmtree(self.root, ignore_errors=True)
+        return False
+
+
+def _api_sequences(kind, n):
+    from biotite.sequence import Alphabet, GeneralSequence, NucleotideSequence, ProteinSequence
+    if kind == "prot":
+        return [ProteinSequence("MKT" + "ACDEFGHIKL"[i % 10] * (1 + i % 3) + "WY") for i in range(n)]
+    if kind == "nuc":
+        return [NucleotideSequence("ACG" + "ACGT"[i % 4] * (1 + i % 3) + "TT") for i in range(n)]
+    alph = Alphabet(["p", "q", "r", "s"])
+    return [GeneralSequence(alph, list("pqr" + "pqrs"[i % 4] * (1 + i % 2) + "s")) for i in range(n)]
+
+
+def _api_matrix(seqs, symmetric=True):
+    import numpy as np
+    from biotite.sequence.align import SubstitutionMatrix
+    alph = seqs[0].get_alphabet()
+    m = np.eye(len(alph), dtype=np.int32) * 6 - 2
+    if not symmetric:
+        m[0, 1] = 3
+    return SubstitutionMatrix(alph, alph, m)
+
+
+def _api_classes():
+    from biotite.application.clustalo import ClustalOmegaApp
+    from biotite.application.mafft import MafftApp
+    from biotite.application.muscle import Muscle5App, MuscleApp
+    return {"clustalo": ClustalOmegaApp, "muscle3": MuscleApp, "muscle5": Muscle5App, "mafft": MafftApp}
+
+
+def _rows_of(alignment, generic):
+    from biotite.sequence import ProteinSequence
+    rows = []
+    for i, seq in enumerate(alignment.sequences):
+        rows.append("".join("-" if pos == -1 else (ProteinSequence.alphabet.decode(int(seq.code[pos])) if generic
+                                                    else str(seq.alphabet.decode(int(seq.code[pos]))))
+                            for pos in alignment.trace[:, i]))
+    return rows
+
+
+def _oracle_api(case):
+    """Oracle-only cases on the real classes: class methods, defaults, forwarding of options, version checks,
+    isolation between instances, support flags.  Each returns [(key, message)]."""
+    import subprocess
+    import warnings
+    what = case["what"]
+    v = []
+    with warnings.catch_warnings(), _Sandbox() as sb:
+        warnings.simplefilter("ignore")
+        classes = _api_classes()
+        bin_of = lambda t: os.path.join(_bin_dir(), t)      # noqa: E731
+        if what == "align":
+            # <Wrapper>.align(sequences, bin_path, [matrix], [gap_penalty]): start + join + get_alignment in one call
+            wr, tool, n, kind = case["wrapper"], case["tool"], case["n"], case["seqkind"]
+            cls = classes[wr]
+            os.environ["C20_VERSION"] = "5.1" if wr == "muscle5" else "3.8.31"
+            seqs = _api_sequences(kind, n)
+            matrix = _api_matrix(seqs) if (kind == "generic" or case.get("matrix")) else None
+            kwargs = {}
+            if wr != "muscle5":
+                kwargs["matrix"] = matrix
+            if case.get("gap") is not None and wr == "muscle3":
+                kwargs["gap_penalty"] = tuple(case["gap"])
+            try:
+                ali = cls.align(seqs, bin_of(tool), **kwargs)
+                res = "ok"
+            except subprocess.SubprocessError:
+                res = "SubprocessError"
+            except Exception as e:  # noqa: BLE001
+                res = type(e).__name__
+            ev = sb.events()
+            rows = next((e["rows"] for e in reversed(ev) if e.get("event") == "exit" and "rows" in e), None)
+            args = next((e["args"] for e in ev if e.get("event") == "started"), [])
+            if tool in ("ok", "reorder"):
+                if res != "ok":
+                    v.append((f"C20/api/align/{wr}/valid-run-failed", f"{wr}.align(...) raised {res} with tool {tool}"))
+                else:
+                    got = _rows_of(ali, kind == "generic")
+                    exp = [dict(rows)[str(i)] for i in range(n)] if rows else None
+                    if got != exp:
+                        v.append((f"C20/api/align/{wr}/result-differs-from-tool-output", f"{got} vs {exp}"))
+                    if [type(x) for x in ali.sequences] != [type(x) for x in seqs]:
+                        v.append((f"C20/api/align/{wr}/sequence-type-not-restored", str([type(x).__name__ for x in ali.sequences])))
+                if kwargs.get("gap_penalty") and not ("-gapopen" in args and args[args.index("-gapopen") + 1] == f"{kwargs['gap_penalty'][0]:.1f}"
+                                                     and args[args.index("-gapextend") + 1] == f"{kwargs['gap_penalty'][1]:.1f}"):
+                    v.append((f"C20/api/align/{wr}/gap_penalty-not-forwarded", f"argv {args}"))
+                if matrix is not None and wr in ("muscle3", "mafft") and not any(a in args for a in ("-matrix", "--aamatrix")):
+                    v.append((f"C20/api/align/{wr}/matrix-not-forwarded", f"argv {args}"))
+            elif tool in FAILING_EXIT and res != "SubprocessError":
+                v.append((f"C20/api/align/{wr}/failing-exit-accepted", f"{wr}.align(...) -> {res} with tool {tool}"))
+            elif tool.startswith("garbage") and res in ("ok", "SubprocessError") and not (tool == "garbage_tree" and wr == "muscle5"):
+                # (MUSCLE 5 writes and reads no guide tree: a broken tree file is not its concern)
+                v.append((f"C20/api/align/{wr}/garbage-accepted", f"{wr}.align(...) -> {res} with tool {tool}"))
+            left = sb.leftovers()
+            if left:
+                v.append((f"C20/api/align/{wr}/leak/{tool}", f"after align() [{res}]: {left}"))
+        elif what == "default-bin":
+            # bin_path omitted: the program is looked up under its real name through PATH
+            from common import paths
+            os.environ["PATH"] = os.path.join(paths.FIXTURES, "C20", "path") + os.pathsep + os.environ.get("PATH", "")
+            wr = case["wrapper"]
+            seqs = _api_sequences("prot", 3)
+            try:
+                if wr == "tantan":
+                    from biotite.application.tantan import TantanApp
+                    app = TantanApp(seqs)
+                elif wr == "muscle5":
+                    os.environ["C20_VERSION"] = "5.1"
+                    app = classes[wr](seqs)
+                else:
+                    app = classes[wr](seqs)
+                app.start()
+                app.join(timeout=20)
+                if app.get_app_state().name != "JOINED":
+                    v.append((f"C20/api/default-bin/{wr}", "state " + app.get_app_state().name))
+            except Exception as e:  # noqa: BLE001
+                v.append((f"C20/api/default-bin/{wr}", f"default bin_path: {type(e).__name__}: {e}"))
+            left = sb.leftovers()
+            if left:
+                v.append((f"C20/api/default-bin/{wr}/leak", str(left)))
+        elif what == "version":
+            from biotite.application.application import VersionError
+            from biotite.application.localapp import get_version
+            from biotite.application.muscle import Muscle5App, MuscleApp
+            seqs = _api_sequences("prot", 2)
+            for cls, ver, should in ((MuscleApp, "3.8.31", None), (MuscleApp, "5.1", VersionError), (MuscleApp, "2.9", VersionError),
+                                     (Muscle5App, "5.1", None), (Muscle5App, "6.0", None), (Muscle5App, "3.8.31", VersionError),
+                                     (MuscleApp, "no digits here", subprocess.SubprocessError)):
+                os.environ["C20_VERSION"] = ver
+                try:
+                    cls(seqs, bin_of("ok"))
+                    got = None
+                except Exception as e:  # noqa: BLE001
+                    got = type(e)
+                if (should is None) != (got is None) or (should is not None and not issubclass(got, should)):
+                    v.append((f"C20/api/version/{cls.__name__}/{ver.split('.')[0]}", f"{cls.__name__} with version {ver!r}: "
+                              f"{got.__name__ if got else 'accepted'}, expected {should.__name__ if should else 'accepted'}"))
+                if got is not None and os.listdir(sb.tmp):
+                    v.append((f"C20/api/version/{cls.__name__}/temp-files-after-refusal", str(os.listdir(sb.tmp))))
+                for f in os.listdir(sb.tmp):
+                    os.remove(os.path.join(sb.tmp, f))
+            os.environ["C20_VERSION"] = "12.34.5"
+            if get_version(bin_of("ok"), "-version") != (12, 34):
+                v.append(("C20/api/get_version/parse", str(get_version(bin_of("ok"), "-version"))))
+        elif what == "forwarding":
+            # set_arguments / add_additional_options / set_stdin / set_exec_dir reach the program; getters report what it did
+            from biotite.application.localapp import LocalApp
+            opts, args = ["--c20-opt", "x y"], ["--plain", "--read-stdin"]
+            stdin_path = os.path.join(sb.root, "stdin.txt")
+            with open(stdin_path, "w") as f:
+                f.write("C20-STDIN\n")
+            app = LocalApp(bin_of(case.get("tool", "ok")))
+            opts_copy, args_copy = list(opts), list(args)
+            app.add_additional_options(opts)
+            app.set_arguments(args)
+            args.append("--mutated-after-the-call")          # the caller's list is its own
+            opts.append("--mutated-after-the-call")
+            with open(stdin_path) as fin:
+                app.set_stdin(fin)
+                app.set_exec_dir(sb.other)
+                app.start()
+                proc = app.get_process()
+                try:
+                    app.join(timeout=20)
+                    if case.get("tool") == "exit3":
+                        v.append(("C20/api/forwarding/failing-exit-accepted", "join() returned"))
+                except subprocess.SubprocessError as e:
+                    if case.get("tool") != "exit3":
+                        v.append(("C20/api/forwarding/valid-run-failed", str(e)))
+                    elif "exit code 3" not in str(e) or "boom" not in str(e):
+                        v.append(("C20/api/forwarding/error-message", str(e)))     # documented: exit code and STDERR in the message
+            ev = sb.events()
+            started = next((e for e in ev if e.get("event") == "started"), {})
+            stdin_ev = next((e for e in ev if e.get("event") == "stdin"), {})
+            exp_argv = opts_copy + args_copy
+            if started.get("args") != exp_argv:
+                v.append(("C20/api/forwarding/argv", f"program saw {started.get('args')}, expected options before arguments: {exp_argv}"))
+            if case.get("tool") != "exit3" and stdin_ev.get("data") != "C20-STDIN\n":     # (exit3 dies before reading)
+                v.append(("C20/api/forwarding/stdin", f"program read {stdin_ev.get('data')!r}"))
+            if os.path.realpath(started.get("cwd", "")) != os.path.realpath(sb.other):
+                v.append(("C20/api/forwarding/exec_dir", f"program ran in {started.get('cwd')}"))
+            if started.get("pid") != proc.pid:
+                v.append(("C20/api/forwarding/get_process", f"{proc.pid} vs {started.get('pid')}"))
+            code = 3 if case.get("tool") == "exit3" else 0
+            try:
+                if app.get_app_state().name == "JOINED":
+                    obs = (app.get_exit_code(), app.get_stdout(), app.get_stderr())
+                    if obs != (0, "plain output\n", ""):
+                        v.append(("C20/api/forwarding/stdout-stderr-exit", repr(obs)))
+                    if app.get_command() != " ".join([bin_of(case.get("tool", "ok"))] + exp_argv):
+                        v.append(("C20/api/forwarding/get_command", app.get_command()))
+                elif code == 0:
+                    v.append(("C20/api/forwarding/state", app.get_app_state().name))
+            except Exception as e:  # noqa: BLE001
+                v.append(("C20/api/forwarding/getter-raised", f"{type(e).__name__}: {e}"))
+            left = sb.leftovers()
+            if left:
+                v.append(("C20/api/forwarding/leak", str(left)))
+        elif what == "two-instances":
+            # nothing is shared between two wrappers of one class; repeated reads agree
+            wr = case["wrapper"]
+            cls = classes[wr]
+            os.environ["C20_VERSION"] = "5.1" if wr == "muscle5" else "3.8.31"
+            a = cls(_api_sequences("prot", 3), bin_of("ok"))
+            a.add_additional_options(["--only-for-a"])
+            if wr == "muscle3":
+                a.set_gap_penalty((-7.0, -2.0))
+            if wr == "clustalo":
+                import numpy as np
+                a.full_matrix_calculation()
+                dm = np.array([[abs(i - j) * 0.5 for j in range(3)] for i in range(3)])
+                a.set_distance_matrix(np.asfortranarray(dm.astype(np.float32)))     # same numbers, another layout and width
+            b = cls(_api_sequences("prot", 4), bin_of("reorder"))
+            b.start()
+            a.start()
+            b.join(timeout=20)
+            a.join(timeout=20)
+            cmd_a, cmd_b = a.get_command(), b.get_command()
+            if "--only-for-a" in cmd_b or "-gapopen" in cmd_b or "--full" in cmd_b:
+                v.append((f"C20/api/two-instances/{wr}/options-shared", cmd_b))
+            if wr == "clustalo":
+                txt = next((e.get("distmat_in") for e in sb.events() if e.get("event") == "started" and "distmat_in" in e), None)
+                try:
+                    lines = txt.split("\n")
+                    nums = [[float(x) for x in line.split()] for line in lines[1:] if line.strip()]
+                    ok_dm = lines[0].strip() == "3" and nums == [[float(i)] + [abs(i - j) * 0.5 for j in range(3)] for i in range(3)]
+                except Exception:  # noqa: BLE001
+                    ok_dm = False
+                if not ok_dm:
+                    v.append(("C20/api/two-instances/clustalo/distance-matrix-not-forwarded", repr(txt)))
+                if a.get_distance_matrix().shape != (3, 3):
+                    v.append(("C20/api/two-instances/clustalo/get_distance_matrix", str(a.get_distance_matrix())))
+            if "--only-for-a" not in cmd_a:
+                v.append((f"C20/api/two-instances/{wr}/options-lost", cmd_a))
+            for app, n in ((a, 3), (b, 4)):
+                r1, r2 = _rows_of(app.get_alignment(), False), _rows_of(app.get_alignment(), False)
+                o1, o2 = list(app.get_alignment_order()), list(app.get_alignment_order())
+                if r1 != r2 or o1 != o2 or len(r1) != n:
+                    v.append((f"C20/api/two-instances/{wr}/repeated-read-differs", f"{r1} {r2} {o1} {o2}"))
+            rows = {}
+            for e in sb.events():
+                if e.get("event") == "exit" and "rows" in e:
+                    rows[len(e["rows"])] = dict(e["rows"])
+            for app, n in ((a, 3), (b, 4)):
+                got = _rows_of(app.get_alignment(), False)
+                if got != [rows.get(n, {}).get(str(i)) for i in range(n)]:
+                    v.append((f"C20/api/two-instances/{wr}/results-mixed-up", f"{got} vs {rows.get(n)}"))
+            left = sb.leftovers()
+            if left:
+                v.append((f"C20/api/two-instances/{wr}/leak", str(left)))
+        elif what == "supports":
+            # what a wrapper accepts at construction is what its supports_*() flags say; refusals leave no temp file
+            wr = case["wrapper"]
+            cls = classes[wr]
+            os.environ["C20_VERSION"] = "5.1" if wr == "muscle5" else "3.8.31"
+
+            def build(seqs, matrix):
+                for f in os.listdir(sb.tmp):
+                    os.remove(os.path.join(sb.tmp, f))
+                try:
+                    if wr == "muscle5":
+                        if matrix is not None:
+                            return "n/a"
+                        cls(seqs, bin_of("ok"))
+                    else:
+                        cls(seqs, bin_of("ok"), matrix)
+                    return "ok"
+                except Exception as e:  # noqa: BLE001
+                    if os.listdir(sb.tmp):
+                        v.append((f"C20/api/supports/{wr}/temp-files-after-refusal", f"{type(e).__name__}: {os.listdir(sb.tmp)}"))
+                    return type(e).__name__
+            prot, nuc, gen = _api_sequences("prot", 3), _api_sequences("nuc", 3), _api_sequences("generic", 3)
+            # ClustalOmegaApp deliberately drops the matrix argument (documented: no custom matrices)
+            exp = {
+                "prot": "ok" if cls.supports_protein() else "TypeError",
+                "nuc": "ok" if cls.supports_nucleotide() else "TypeError",
+                "generic+matrix": "ok" if (cls.supports_protein() and cls.supports_custom_protein_matrix()) else "TypeError",
+                "generic": "TypeError",
+            }
+            got = {"prot": build(prot, None), "nuc": build(nuc, None),
+                   "generic+matrix": build(gen, _api_matrix(gen)) if wr != "muscle5" else build(gen, None),
+                   "generic": build(gen, None)}
+            if wr == "muscle5":
+                exp["generic+matrix"] = "TypeError"
+            if wr == "clustalo":
+                exp["generic+matrix"] = "TypeError"
+            for k in exp:
+                if got[k] != exp[k]:
+                    v.append((f"C20/api/supports/{wr}/{k}", f"constructing with {k}: {got[k]}, supports_* say {exp[k]}"))
+            if wr in ("muscle3", "mafft"):
+                r = build(prot, _api_matrix(prot, symmetric=False))
+                if r != "ValueError":
+                    v.append((f"C20/api/supports/{wr}/asymmetric-matrix", r))
+                if wr == "mafft" and build(nuc, _api_matrix(nuc)) != "ok":
+                    v.append((f"C20/api/supports/{wr}/nucleotide-matrix", "refused although supports_custom_nucleotide_matrix()"))
+                if wr == "muscle3" and build(nuc, _api_matrix(nuc)) != "TypeError":
+                    v.append((f"C20/api/supports/{wr}/nucleotide-matrix", "accepted although not supports_custom_nucleotide_matrix()"))
+            if build(prot[:1], None) != "ValueError":
+                v.append((f"C20/api/supports/{wr}/single-sequence", "fewer than two sequences accepted"))
+            if build([prot[0], nuc[0]], None) != "ValueError":
+                v.append((f"C20/api/supports/{wr}/mixed-alphabets", "sequences with different alphabets accepted"))
+            for f in os.listdir(sb.tmp):
+                os.remove(os.path.join(sb.tmp, f))
+        elif what == "muscle-trees":
+            from biotite.application.muscle import MuscleApp
+            n = case["n"]
+            app = MuscleApp(_api_sequences("prot", n), bin_of("ok"))
+            app.start()
+            app.join(timeout=20)
+            ident, kmer = _show_clades(app.get_guide_tree()), _show_clades(app.get_guide_tree("kmer"))
+            exp_ident = ";".join(f"0..{k}" for k in range(1, n))
+            exp_kmer = ";".join(sorted((",".join(map(str, range(n - 1 - k, n))) if k < n - 1 else f"0..{n - 1}" for k in range(1, n)),
+                                       key=lambda c: (c.count(",") if ".." not in c else n, c)))
+            if ident != exp_ident or _show_clades(app.get_guide_tree(iteration="identity")) != exp_ident:
+                v.append(("C20/api/muscle-trees/identity", f"{ident} expected {exp_ident}"))
+            kc = sorted(kmer.split(";"))
+            if kc != sorted(exp_kmer.split(";")):
+                v.append(("C20/api/muscle-trees/kmer", f"{kmer} expected {exp_kmer}"))
+            try:
+                app.get_guide_tree("neither")
+                v.append(("C20/api/muscle-trees/invalid-iteration-accepted", ""))
+            except ValueError:
+                pass
+            left = sb.leftovers()
+            if left:
+                v.append(("C20/api/muscle-trees/leak", str(left)))
+        elif what == "map-matrix":
+            import numpy as np
+            from biotite.application.util import map_matrix
+            from biotite.sequence import ProteinSequence
+            gen = _api_sequences("generic", 2)
+            m = _api_matrix(gen)
+            before = m.score_matrix().copy()
+            mm = map_matrix(m)
+            sc = mm.score_matrix()
+            k = len(gen[0].get_alphabet())
+            if mm.get_alphabet1() != ProteinSequence.alphabet or mm.get_alphabet2() != ProteinSequence.alphabet:
+                v.append(("C20/api/map_matrix/alphabet", "mapped matrix is not over the amino-acid alphabet"))
+            if not (np.array_equal(sc[:k, :k], before) and not sc[k:, :].any() and not sc[:, k:].any()):
+                v.append(("C20/api/map_matrix/scores", "scores not taken over into the upper-left corner / rest not 0"))
+            if not np.array_equal(m.score_matrix(), before):
+                v.append(("C20/api/map_matrix/argument-changed", ""))
+            try:
+                map_matrix(None)
+                v.append(("C20/api/map_matrix/none-accepted", ""))
+            except TypeError:
+                pass
+    seen, out = set(), []
+    for k, m in v:
+        if k not in seen:
+            seen.add(k)
+            out.append((k, m))
+    return out
+
+
+def _api_cases(quick):
+    out = []
+    for wr in ("clustalo", "muscle3", "muscle5", "mafft"):
+        combos = [("ok", 3, "prot"), ("reorder", 4, "nuc"), ("exit3", 3, "prot"), ("garbage_swap", 3, "prot")]
+        if wr in ("muscle3", "mafft"):
+            combos.append(("reorder", 3, "generic"))
+        if not quick:
+            combos += [("sigkill", 3, "prot"), ("garbage_missing", 3, "nuc"), ("reorder", 11, "prot"), ("garbage_tree", 3, "prot")]
+        for tool, n, kind in combos:
+            c = {"kind": "api", "what": "align", "wrapper": wr, "tool": tool, "n": n, "seqkind": kind}
+            if wr == "muscle3" and tool == "ok":
+                c["gap"] = [-7.0, -2.0]
+                c["matrix"] = True
+            if wr == "mafft" and tool == "ok":
+                c["matrix"] = True
+            out.append(c)
+        out.append({"kind": "api", "what": "two-instances", "wrapper": wr})
+        out.append({"kind": "api", "what": "supports", "wrapper": wr})
+    for wr in ("clustalo", "muscle3", "muscle5", "mafft", "tantan"):
+        out.append({"kind": "api", "what": "default-bin", "wrapper": wr})
+    out += [{"kind": "api", "what": "version"}, {"kind": "api", "what": "forwarding", "tool": "ok"},
+            {"kind": "api", "what": "forwarding", "tool": "exit3"}, {"kind": "api", "what": "muscle-trees", "n": 4},
+            {"kind": "api", "what": "muscle-trees", "n": 3}, {"kind": "api", "what": "map-matrix"}]
+    return out
+
 
 def _fmt_obs(o):
     return f"st={o['st']} cwd={o['cwd']} files={o['files']} child={o['child']} cl={o['cl']}"
@@ -1255,11 +1729,11 @@ def execute(case):
                 before = after
                 released_before = sess.released()
                 is_call = line.split()[0] in ("call", "callbad", "setgap")
-                snap_before = sess.snapshot() if is_call else None
+                snap_before = sess.snapshot()
                 res = sess.op(line)
                 after = sess.observe()
                 extra = {"released_before": released_before}
-                if is_call and res.startswith("ERR:"):
+                if (is_call and res.startswith("ERR:")) or res == "ERR:AppStateError":
                     snap_after = sess.snapshot()
                     extra["attrs_changed"] = sorted(k for k in set(snap_before) | set(snap_after)
                                                     if snap_before.get(k, "<absent>") != snap_after.get(k, "<absent>"))
@@ -1380,6 +1854,8 @@ def oracle(case):
         return _oracle_cleanup_raises(case)
     if case.get("kind") == "sra-eval-failure":
         return _oracle_sra_eval_failure(case)
+    if case.get("kind") == "api":
+        return _oracle_api(case)
     key = json.dumps(case["ops"])
     trace = _TRACE_CACHE.pop(key, None)
     if trace is None:
@@ -1455,6 +1931,9 @@ def oracle(case):
                 exp = "ok " + ",".join(str(k) for k in range(nseq))
                 if res != exp:
                     v.append(("C20/result/distance-matrix-differs-from-tool-output", f"{res} expected {exp} ({case['ops']})"))
+            if refused and t["extra"].get("attrs_changed"):
+                v.append((f"C20/refusal-side-effect/{'+'.join(t['extra']['attrs_changed'])}/{b['st']}",
+                          f"refused {op} changed the stored {t['extra']['attrs_changed']} ({case['ops']})"))
             if refused and a != b:
                 diff = ",".join(k for k in a if a[k] != b[k])
                 v.append((f"C20/refusal-side-effect/{diff}/{b['st']}", f"refused {op} changed {diff}: {b} -> {a} ({case['ops']})"))
@@ -1613,7 +2092,7 @@ def _exhaustive_wrapper(wrapper, maxlen):
 def cases(rng, tier):
     quick = tier == "quick"
     maxlen = 6 if quick else 8
-    n_tmpl, n_rand = (200, 200) if quick else (3000, 4000)
+    n_tmpl, n_rand = (160, 160) if quick else (3000, 4000)
     # every guarded method once in every reachable state (one wrapper per method owner)
     seen = set()
     out = []
@@ -1735,6 +2214,7 @@ def cases(rng, tier):
         add(_mk(_new_line(rng, wrapper), _random_history(rng, wrapper, maxlen), "random"))
     for c in _web_cases(rng, 150 if quick else 2500, maxlen):
         add(c)
+    out += _api_cases(quick)
     return out
 
 
@@ -1787,7 +2267,7 @@ def nontrivial(case, impl_out):
 
 
 def signature(case):
-    return "|".join(case.get("ops", [case.get("kind", "?")]))
+    return "|".join(case.get("ops", [json.dumps({k: v for k, v in case.items() if not k.startswith("_")}, sort_keys=True)]))
 
 
 def distribution(cases, impl_outs):
